@@ -105,6 +105,20 @@ def _single_atom_default(E):
         c = E.real('cc_' + k, lo=0, lo_open=True, hi=1000)
         g = formulas.formula([(c, a)])
         E.eq('single_atom_density_counted[%s]' % k, g.density, a.density)
+        # "a single-atom formula" is about the atoms, however the formula is spelled
+        c2 = E.real('cd_' + k, lo=0, lo_open=True, hi=1000)
+        for nm, st in (('split', [(c, a), (c2, a)]), ('nested', [(c, [(c2, a)])]), ('group_then_atom', [(c, [(1, a)]), (c2, a)])):
+            g2 = formulas.formula(st)
+            E.fact('single_atom_density_%s_known[%s]' % (nm, k), g2.density is not None)
+            if g2.density is not None:
+                E.eq('single_atom_density_%s[%s]' % (nm, k), g2.density, a.density)
+    # a lone group of two different atoms is not a single-atom formula: no default density
+    two = formulas.formula([(E.real('cg', lo=0, lo_open=True, hi=1000), [(1, atoms[0]), (2, atoms[4])])])
+    E.fact('two_atom_group_has_no_default_density', two.density is None, note=repr(two.density))
+    import periodictable as pt
+    for text, single in (('FeFe', pt.Fe), ('Fe + Fe', pt.Fe), ('Fe2(Fe)3', pt.Fe), ('D D2', pt.D), ('3H2O', None), ('(HDO)2', None), ('(FeNi)2', None)):
+        d = formulas.formula(text).density
+        E.fact('default_density[%s]' % text, (d is None) if single is None else (d == single.density), note=repr(d))
     # isotope density = element density scaled by the mass ratio
     iso = atoms[1]
     E.eq('isotope_density', iso.density * el.mass, el.density * iso.mass)
